@@ -336,14 +336,15 @@ Definition IdxFaithful (l : log) (idx : cfile) : Prop :=
   end.
 
 (* ------------------------------------------------------------------ observation encoding + case (correspondence) *)
-(* what the harness observes of a compile through the caches as found: did it succeed, the recorded cut, the user
-   messages of the bundle (by seq), the number of summary refs *)
+(* what the harness observes of a compile through the caches as found: did it succeed, the recorded cut, the summary
+   refs of the bundle (number, to_seq of each), the user messages of the bundle (by seq) *)
 Definition is_summary (i : item) : bool := match i with ISummary _ _ => true | _ => false end.
 Definition cc_obs (o : option (decision * bundle)) : list N :=
   match o with
   | None => [0]
   | Some (_, b) =>
     [1; b_from b; nlen (filter is_summary (b_items b))]
+      ++ flat_map (fun i => match i with ISummary _ t => [t] | _ => [] end) (b_items b)
       ++ flat_map (fun i => match i with IUser s => [s] | _ => [] end) (b_items b)
   end.
 
@@ -359,13 +360,16 @@ Record cc_case := {
   cc_l : log;                 (* the thread's frames in events.jsonl *)
   cc_mrf : cfile;             (* <id>.mr.v1.jsonl as found *)
   cc_fullf : cfile;           (* <id>.jsonl as found *)
+  cc_compf : cfile;           (* <id>.comp.v1.jsonl as found *)
+  cc_idxf : cfile;            (* <id>.comp.idx.v1.jsonl as found: an entry = the checkpoint frame it was written from *)
+  cc_me : nat;                (* whole lines inside the one bounded scan of the checkpoint sidecar (10 000 frames / 8 MiB) *)
   cc_budgets : list nat;      (* whole lines inside the last 256 KiB, 512 KiB, .. 8 MiB of the file the tail scan reads *)
   cc_anchor : N;
   cc_expect : list N }.
 
-(* the seek window is left out (None): by c04_compile_transparent_partial it cannot change the answer on a faithful store *)
+(* the seek window is left out (None): by c04_compiled_context_transparent_partial it cannot change the answer on a faithful store *)
 Definition cc_model_obs (r : tail_count) (limit max_refs : N) (frame_rule : bool) (c : cc_case) : list N :=
-  cc_obs (compile_fast r (code_params limit max_refs frame_rule) (fun _ => 0) (cc_budgets c) (cc_mrf c) (cc_fullf c) None
-                       (cc_l c) (cc_anchor c)).
+  cc_obs (compile_cached r (code_params limit max_refs frame_rule) (fun _ => 0) (cc_budgets c) (cc_me c)
+                         (cc_mrf c) (cc_fullf c) (cc_compf c) (cc_idxf c) None (cc_l c) (cc_anchor c)).
 Definition cc_check_case (r : tail_count) (limit max_refs : N) (frame_rule : bool) (c : cc_case) : bool :=
   valid_log (cc_l c) && lN_eqb (cc_model_obs r limit max_refs frame_rule c) (cc_expect c).
